@@ -71,6 +71,35 @@ def terms(e):
     return out
 
 
+def vector_frame(ctx, rule="R16.3"):
+    """The generator evaluates the solenoidal field v at the ISOMETRIZED positions x' = D x (Field.pre_pos; D = derotation for an
+    isotropic model).  u(x) = v(D x) has div u = sum_ij d_j' v_i D_ji, which vanishes for every v only if D = 1.  So either rotated
+    models are refused for vector fields, or the components are rotated back (u = D^T v(D x)) before they are returned."""
+    prog = ctx.prog
+    srf_call = prog.func("field/srf.py", "SRF.__call__")
+    pre = prog.func("field/base.py", "Field.pre_pos")
+    iso = any(isinstance(n, ast.Call) and isinstance(n.func, ast.Attribute) and n.func.attr == "isometrize" for n in ast.walk(pre))
+    gen_calls = [n for n in ast.walk(srf_call) if isinstance(n, ast.Call) and ast.unparse(n.func) == "self.generator"]
+    if not iso or len(gen_calls) != 1:
+        raise AnalysisError("anchor vanished: pre_pos isometrizes / SRF.__call__ calls the generator once")
+    ctx.ok(rule, "field/srf.py::SRF.__call__", "the vector generator is evaluated at positions rotated into the model frame (pre_pos -> model.isometrize)")
+    derot_names = {"matrix_rotate", "matrix_anisometrize", "anisometrize", "main_axes", "matrix_derotate"}
+    fns = [srf_call, prog.func(GEN, "IncomprRandMeth.__call__"), prog.func("field/base.py", "Field.post_field")]
+    derot = [ast.unparse(n)[:60] for f in fns for n in ast.walk(f) if isinstance(n, ast.Call) and (getattr(n.func, "attr", None) in derot_names or getattr(n.func, "id", None) in derot_names)]
+    guards = []
+    for q in ("SRF.__call__", "SRF.set_generator", "SRF.__init__"):
+        f = prog.func("field/srf.py", q)
+        guards += [ast.unparse(s.test) for s in ast.walk(f) if isinstance(s, ast.If) and "angles" in ast.unparse(s.test) and any(isinstance(x, ast.Raise) for x in s.body)]
+    for q in ("IncomprRandMeth.__init__", "IncomprRandMeth.__call__"):
+        f = prog.func(GEN, q)
+        guards += [ast.unparse(s.test) for s in ast.walk(f) if isinstance(s, ast.If) and "angles" in ast.unparse(s.test) and any(isinstance(x, ast.Raise) for x in s.body)]
+    if derot or guards:
+        ctx.ok(rule, GEN + "::IncomprRandMeth", "rotation of the model frame is handled for vector fields (back-rotation %s / guards %s)" % (derot, guards))
+    else:
+        ctx.violation(rule, GEN + "::IncomprRandMeth", "an isotropic model with rotation angles is accepted for vector fields, positions are rotated into the model frame, and the vector "
+                      "components are returned in that frame without being rotated back: the field is not divergence-free in the user's coordinates", "rotated-frame-vector")
+
+
 def run(ctx):
     prog = ctx.prog
     fn = prog.func(SUM, "summate_incompr")
@@ -183,6 +212,7 @@ def run(ctx):
     ctx.check(ok, "R16.2", site, "kernel receives (wave vectors, z_1, z_2, positions) of this generator", "kernel-args")
     ctx.check(cls.bases and cls.bases[0].name == "RandMeth" and "reset_seed" not in cls.methods and "update" not in cls.methods, "R16.2", GEN + "::IncomprRandMeth",
               "mode sampling / update logic is inherited unchanged from RandMeth (C11 rules apply)", "inherits")
+    vector_frame(ctx)
     ctx.floor("R16", "obligations", len(ctx.records), 12)
     return (
         "Decides the index/shape clauses behind incompressibility: the projector in summate_incompr is e1[d] - k[d,j]*k[a,j]/|k_j|^2 with |k_j|^2 the "
